@@ -240,6 +240,10 @@ class OMPLoopTrans(ParallelLoopTrans):
         '''
         if not options:
             options = {}
+        # Validate before modifying anything: the symbols needed for a
+        # reproducible reduction must not be added if the transformation
+        # is going to be rejected.
+        self.validate(node, options=options)
         self._reprod = options.get("reprod",
                                    Config.get().reproducible_reductions)
 
